@@ -178,6 +178,37 @@ def handle (w cap digs : Nat) (op : String) (args : List String) (got : String) 
         (if (List.range (max lb le)).any (fun i => NtMxp.bit b.natAbs i && NtMxp.bit e.natAbs i) then ["sim-both-bits"] else []))
     some { model := if tooLong && got == "err" then "err" else out pred,
            spec := if tooLong then spec ++ ["err"] else spec, tags := tags }
+  | "nt_mxp_few", c0s :: ms :: rest => do
+    let c0 ← pI w c0s
+    let m ← pI w ms
+    let vals ← rest.mapM (pI w)
+    let rec pairs : List Int → List (Int × Int)
+      | a :: b :: t => (a, b) :: pairs t
+      | _ => []
+    let ps := pairs vals
+    let tooLong := (ms :: rest).any long
+    let pred := NtMxp.mxpSimFew w c0 ps m
+    let n := ps.length
+    let anyNeg := ps.any fun p => p.2 < 0
+    let math := fmt ((ps.foldl (fun acc p => acc * powModI p.1 p.2.natAbs m % m) (1 % m)) % m)
+    -- specification: Π a_i^b_i mod m; n = 0 leaves c untouched, n > 8 is refused; negative exponents: the mathematical value is not
+    -- computed here (known finding C09-ext-mxp-1 covers bn_mxp_sim); they are judged by the model alone
+    let spec : List String :=
+      if m = 1 then ["0:u1"]
+      else if n = 0 then [fmt c0]
+      else if n > 8 then ["err"]
+      else if m ≤ 0 ∨ anyNeg then [out pred]
+      else if m % 2 = 0 then [math, "err"]
+      else [math]
+    let tags := ["mxp-few", "few-n=" ++ toString n] ++
+      (if m = 1 then ["few-m=1"] else if n = 0 then ["few-n=0-untouched"] else if n > 8 then ["few-n>8-err"]
+       else if m ≤ 0 then ["few-m<=0-err"] else if m % 2 = 0 then ["few-even-m-err"] else
+        (if ps.any (fun p => p.2 = 0) then ["few-zero-exp"] else []) ++
+        (if ps.all (fun p => p.2 = 0) then ["few-all-zero-exp"] else []) ++
+        (if (ps.map fun p => Rec.bitLen p.2.natAbs).eraseDups.length > 1 then ["few-unequal-lengths"] else []) ++
+        (if anyNeg then ["few-neg-exp-sign-ignored"] else []))
+    some { model := if tooLong && got == "err" then "err" else out pred,
+           spec := if tooLong then spec ++ ["err"] else spec, tags := tags }
   | _, _ => none
 
 end Driver.C09Mxp
